@@ -79,6 +79,26 @@ Theorem C05_segmentation : forall fs chunks now, Forall vframe fs -> concat chun
 Proof. exact segmentation_subpkg. Qed.
 Print Assumptions C05_segmentation.
 
+(* the same for reads spread over time (each read processed at its own time, in any order of
+   times): as long as the expiry pass never drops a transfer (no_expiry: at the end of every read no
+   pending transfer was created more than 60 s earlier - C14_expiry says what happens otherwise), the
+   completePack loop delivers over all reads exactly what processing the frames one by one
+   delivers; no read returns an error; and everything else a read returns is a list of 0x8003
+   messages generated by the housekeeping pass and appended after them (C14) *)
+Theorem C05_segmentation_timed : forall fs reads, Forall vframe fs -> concat (map snd reads) = concat fs ->
+  no_expiry pst0 reads ->
+  concat (owns_timed pst0 reads) = snd (cp_loop 0 [] (map decode_ok fs)) /\
+  Forall (fun x => snd x = None) (feed_timed pst0 reads) /\
+  Forall2 (fun x own => exists rrs, snd (fst x) = own ++ map rereq_pmsg rrs) (feed_timed pst0 reads) (owns_timed pst0 reads).
+Proof. exact segmentation_timed. Qed.
+Print Assumptions C05_segmentation_timed.
+
+(* no_expiry holds in particular when the whole history lies within 60 s *)
+Theorem C05_no_expiry_within_60s : forall t0 reads,
+  Forall (fun r => t0 <= fst r /\ fst r <= t0 + 60000) reads -> no_expiry pst0 reads.
+Proof. exact no_expiry_span. Qed.
+Print Assumptions C05_no_expiry_within_60s.
+
 (* ... and what that loop delivers as complete is what the message-level machine of the theorems
    above completes (same state afterwards): C05_exact / C05_never_early speak about parse *)
 Theorem C05_parse_is_run : forall now ms s,
